@@ -23,12 +23,18 @@ import (
 	"verif/harness/vh"
 )
 
+type c15TagSpec struct {
+	Len  int    `json:"len"`
+	Seed uint64 `json:"seed"`
+}
+
 type c15ObfCase struct {
-	Priv    vh.Hex `json:"priv"`     // station private key (32 bytes, used as given: X25519 clamps)
-	Other   vh.Hex `json:"other"`    // an unrelated private key for the wrong-key reveal
-	TagLen  int    `json:"tag_len"`  // tag = Tag if non-empty or TagLen == 0, else c15h.Expand(TagSeed, TagLen)
-	TagSeed uint64 `json:"tag_seed"` //
-	Tag     vh.Hex `json:"tag,omitempty"`
+	Priv    vh.Hex       `json:"priv"`     // station private key (32 bytes, used as given: X25519 clamps)
+	Other   vh.Hex       `json:"other"`    // an unrelated private key for the wrong-key reveal
+	TagLen  int          `json:"tag_len"`  // primary tag = Tag if non-empty or TagLen == 0, else c15h.Expand(TagSeed, TagLen)
+	TagSeed uint64       `json:"tag_seed"` //
+	Tag     vh.Hex       `json:"tag,omitempty"`
+	Extra   []c15TagSpec `json:"extra_tags,omitempty"` // further tags obfuscated in the same case, interleaved with the primary one
 }
 
 func (c c15ObfCase) tag() []byte {
@@ -64,6 +70,18 @@ func c15Clamp(k []byte) [32]byte {
 	return e
 }
 
+// c15Enc is one encoding handed out by an Obfuscate call: the slice exactly as returned (kept alive
+// and untouched by the harness) and a private copy taken immediately after the call.
+type c15Enc struct {
+	ob   int
+	tag  int
+	call int // global index of the Obfuscate call within the case
+	raw  []byte
+	snap []byte
+}
+
+var c15Sink [][]byte // a few unrelated allocations between calls (never read)
+
 func c15ObfCheck(t vh.Fataler, rec *vh.Rec, c c15ObfCase, reps int) {
 	t.Helper()
 	if len(c.Priv) != 32 || len(c.Other) != 32 {
@@ -79,137 +97,225 @@ func c15ObfCheck(t vh.Fataler, rec *vh.Rec, c c15ObfCase, reps int) {
 	var priv, other [32]byte
 	copy(priv[:], c.Priv)
 	copy(other[:], c.Other)
-	tag := c.tag()
-	L := len(tag)
-	lenClass := "len0"
-	switch {
-	case L == 0:
-	case L < 16:
-		lenClass = "len1-15"
-	case L <= 64:
-		lenClass = "len16-64"
-	default:
-		lenClass = "len>64"
+	tags := [][]byte{c.tag()}
+	for _, x := range c.Extra {
+		tags = append(tags, c15h.Expand(x.Seed, x.Len))
+	}
+	lenClassOf := func(L int) string {
+		switch {
+		case L == 0:
+			return "len0"
+		case L < 16:
+			return "len1-15"
+		case L <= 64:
+			return "len16-64"
+		}
+		return "len>64"
 	}
 	var classes []string
-	evaluated := false
-	for _, ob := range c15Obfs {
-		n := reps
-		if ob.name == "xor" && L >= 1 {
-			// freshness is "the n encodings are not all identical": (256^-L)^(n-1) <= 2^-128
-			if need := 1 + (128+8*L-1)/(8*L); need > n {
-				n = need
+	if len(tags) > 1 {
+		classes = append(classes, "several-tags")
+	}
+	fail := func(extra string) { rec.Case(true, vh.Digest(c), c, append(classes, extra)...) }
+
+	// how many encodings per (obfuscator, tag)
+	need := make([][]int, len(c15Obfs))
+	rejected := make([][]bool, len(c15Obfs))
+	maxN := 0
+	for oi, ob := range c15Obfs {
+		need[oi] = make([]int, len(tags))
+		rejected[oi] = make([]bool, len(tags))
+		for ti, tag := range tags {
+			n, L := reps, len(tag)
+			if ti > 0 && n > 2 {
+				n = 2
+			}
+			if ob.name == "xor" && L >= 1 {
+				// freshness is "the n encodings are not all identical": (256^-L)^(n-1) <= 2^-128
+				if k := 1 + (128+8*L-1)/(8*L); k > n {
+					n = k
+				}
+			}
+			if !ob.randomised {
+				n = 1
+			}
+			need[oi][ti] = n
+			if n > maxN {
+				maxN = n
 			}
 		}
-		if !ob.randomised {
-			n = 1
-		}
-		var encs [][]byte
-		rejected := false
-		for i := 0; i < n; i++ {
-			in := append([]byte{}, tag...)
-			var ct []byte
-			var oerr error
-			if pan, what := c15h.Catch(func() { ct, oerr = ob.o.Obfuscate(in, pub) }); pan {
-				classes = append(classes, ob.name+":PANIC")
-				rec.Case(true, vh.Digest(c), c, classes...)
-				rec.Violation(t, "obf:"+ob.name+":encode-panic", c, "%s Obfuscate panicked on a %d-byte tag: %s", ob.name, L, what)
-				return
-			}
-			if oerr != nil {
-				// "or encode returned an error" — acceptable; non-vacuity is enforced through the
-				// required <obf>:roundtrip classes
-				rejected = true
-				break
-			}
-			ct = append([]byte{}, ct...)
-			var pt []byte
-			var rerr error
-			if pan, what := c15h.Catch(func() { pt, rerr = ob.o.TryReveal(append([]byte{}, ct...), priv) }); pan {
-				classes = append(classes, ob.name+":PANIC")
-				rec.Case(true, vh.Digest(c), c, classes...)
-				rec.Violation(t, "obf:"+ob.name+":decode-panic", c, "%s TryReveal panicked on the obfuscation of a %d-byte tag: %s", ob.name, L, what)
-				return
-			}
-			if rerr != nil || !bytes.Equal(pt, tag) {
-				classes = append(classes, ob.name+":MISMATCH")
-				rec.Case(true, vh.Digest(c), c, classes...)
-				key := "obf:" + ob.name + ":roundtrip"
-				if L == 0 && len(ct) == 0 {
-					key = "obf:" + ob.name + ":empty-tag" // the empty tag was given an empty encoding, which the decoder refuses
+	}
+
+	// phase 1: all Obfuscate calls of the case, interleaved over repetitions, tags and obfuscators.
+	// Every returned slice stays alive, untouched, until phase 2.
+	var encs []c15Enc
+	calls := 0
+	for rep := 0; rep < maxN; rep++ {
+		for ti, tag := range tags {
+			for oi, ob := range c15Obfs {
+				if rep >= need[oi][ti] || rejected[oi][ti] {
+					continue
 				}
-				got := "error: "
-				if rerr != nil {
-					got += rerr.Error()
-				} else {
-					got = c15h.FirstDiff(tag, pt)
-				}
-				if rec.Violation(t, key, c, "%s: Obfuscate accepted a %d-byte tag (no error, %d-byte encoding, encoding #%d of this case) but TryReveal with the matching private key gave %s", ob.name, L, len(ct), i+1, got) {
+				L := len(tag)
+				in := append([]byte{}, tag...)
+				var raw []byte
+				var oerr error
+				if pan, what := c15h.Catch(func() { raw, oerr = ob.o.Obfuscate(in, pub) }); pan {
+					fail(ob.name + ":PANIC")
+					rec.Violation(t, "obf:"+ob.name+":encode-panic", c, "%s Obfuscate panicked on a %d-byte tag: %s", ob.name, L, what)
 					return
 				}
-				rejected = true // known finding: carry on with the other obfuscators
-				break
+				calls++
+				if oerr != nil {
+					// "or encode returned an error" — acceptable; non-vacuity is enforced through the
+					// required <obf>:roundtrip classes
+					rejected[oi][ti] = true
+					continue
+				}
+				e := c15Enc{ob: oi, tag: ti, call: calls, raw: raw, snap: append([]byte{}, raw...)}
+				c15Sink = append(c15Sink, make([]byte, 32+len(raw)), make([]byte, 64))
+				if len(c15Sink) > 64 {
+					c15Sink = c15Sink[:0]
+				}
+				// immediate round trip (on a copy: the decoder must not be able to touch the kept slice)
+				var pt []byte
+				var rerr error
+				if pan, what := c15h.Catch(func() { pt, rerr = ob.o.TryReveal(append([]byte{}, e.snap...), priv) }); pan {
+					fail(ob.name + ":PANIC")
+					rec.Violation(t, "obf:"+ob.name+":decode-panic", c, "%s TryReveal panicked on the obfuscation of a %d-byte tag: %s", ob.name, L, what)
+					return
+				}
+				if rerr != nil || !bytes.Equal(pt, tag) {
+					fail(ob.name + ":MISMATCH")
+					key := "obf:" + ob.name + ":roundtrip"
+					if L == 0 && len(e.snap) == 0 {
+						key = "obf:" + ob.name + ":empty-tag" // the empty tag was given an empty encoding, which the decoder refuses
+					}
+					got := "error: "
+					if rerr != nil {
+						got += rerr.Error()
+					} else {
+						got = c15h.FirstDiff(tag, pt)
+					}
+					if rec.Violation(t, key, c, "%s: Obfuscate accepted a %d-byte tag (no error, %d-byte encoding, Obfuscate call #%d of this case) but TryReveal with the matching private key gave %s", ob.name, L, len(e.snap), calls, got) {
+						return
+					}
+					rejected[oi][ti] = true // known finding: carry on
+					continue
+				}
+				encs = append(encs, e)
 			}
-			encs = append(encs, ct)
 		}
-		if rejected {
-			classes = append(classes, ob.name+":rejected", ob.name+":rejected:"+lenClass)
+	}
+
+	// phase 2a: no encoding handed out earlier may have been changed by the later calls
+	for _, e := range encs {
+		if bytes.Equal(e.raw, e.snap) {
 			continue
 		}
-		evaluated = true
-		classes = append(classes, ob.name+":roundtrip", ob.name+":roundtrip:"+lenClass)
-
-		// freshness
-		if ob.randomised {
-			pairwise := ob.name != "xor" || L >= 16
-			stale := false
-			switch {
-			case ob.name == "xor" && L == 0:
-				// nothing to randomise
-			case pairwise:
-				for i := 0; i < len(encs) && !stale; i++ {
-					for j := i + 1; j < len(encs); j++ {
-						if bytes.Equal(encs[i], encs[j]) {
-							stale = true
-							break
-						}
-					}
-				}
-				classes = append(classes, ob.name+":fresh-pairwise")
-			default:
-				stale = true
-				for i := 1; i < len(encs); i++ {
-					if !bytes.Equal(encs[0], encs[i]) {
-						stale = false
-					}
-				}
-				classes = append(classes, ob.name+":fresh-short")
-			}
-			if stale {
-				classes = append(classes, ob.name+":STALE")
-				rec.Case(true, vh.Digest(c), c, classes...)
-				if rec.Violation(t, "obf:"+ob.name+":not-fresh", c, "%s: %d encodings of the same %d-byte tag under the same station key contain identical ciphertexts (%d bytes each)", ob.name, len(encs), L, len(encs[0])) {
-					return
-				}
+		ob := c15Obfs[e.ob]
+		now := "something else"
+		for _, f := range encs {
+			if f.call != e.call && bytes.Equal(e.raw, f.snap) {
+				now = fmt.Sprintf("the encoding that call #%d returned (%s, tag #%d)", f.call, c15Obfs[f.ob].name, f.tag)
+				break
 			}
 		}
-
-		// an unrelated key must not reveal the tag (chance on correct code: GCM 2^-128, CTR 2^-8L)
-		if ob.keyed && (ob.name == "gcm" || L >= 16) {
-			var pt []byte
-			var rerr error
-			if pan, what := c15h.Catch(func() { pt, rerr = ob.o.TryReveal(append([]byte{}, encs[0]...), other) }); pan {
-				classes = append(classes, ob.name+":PANIC")
-				rec.Case(true, vh.Digest(c), c, classes...)
-				rec.Violation(t, "obf:"+ob.name+":decode-panic", c, "%s TryReveal panicked with an unrelated key: %s", ob.name, what)
+		fail(ob.name + ":MUTATED")
+		if rec.Violation(t, "obf:"+ob.name+":encoding-mutated-by-later-call", c, "%s: the %d-byte encoding returned by Obfuscate call #%d (tag #%d, %d bytes) was intact right after the call but changed while %d later Obfuscate calls were made (%s); it now holds %s", ob.name, len(e.snap), e.call, e.tag, len(tags[e.tag]), calls-e.call, c15h.FirstDiff(e.snap, e.raw), now) {
+			return
+		}
+	}
+	// phase 2b: every encoding still reveals to its own tag after all later calls
+	for _, e := range encs {
+		ob := c15Obfs[e.ob]
+		var pt []byte
+		var rerr error
+		if pan, what := c15h.Catch(func() { pt, rerr = ob.o.TryReveal(append([]byte{}, e.raw...), priv) }); pan {
+			fail(ob.name + ":PANIC")
+			rec.Violation(t, "obf:"+ob.name+":decode-panic", c, "%s TryReveal panicked: %s", ob.name, what)
+			return
+		}
+		if rerr != nil || !bytes.Equal(pt, tags[e.tag]) {
+			fail(ob.name + ":LATE-MISMATCH")
+			if rec.Violation(t, "obf:"+ob.name+":stale-encoding-does-not-reveal", c, "%s: the encoding returned by Obfuscate call #%d revealed its %d-byte tag right after the call, but not any more after %d later calls (err=%v)", ob.name, e.call, len(tags[e.tag]), calls-e.call, rerr) {
 				return
 			}
-			classes = append(classes, ob.name+":wrong-key-checked")
-			if rerr == nil && bytes.Equal(pt, tag) {
-				classes = append(classes, ob.name+":WRONGKEY")
-				rec.Case(true, vh.Digest(c), c, classes...)
-				if rec.Violation(t, "obf:"+ob.name+":wrong-key-reveals", c, "%s: an unrelated private key reveals the %d-byte tag", ob.name, L) {
+		}
+	}
+	classes = append(classes, "late-recheck")
+
+	evaluated := false
+	for oi, ob := range c15Obfs {
+		for ti, tag := range tags {
+			L := len(tag)
+			if rejected[oi][ti] {
+				if ti == 0 {
+					classes = append(classes, ob.name+":rejected", ob.name+":rejected:"+lenClassOf(L))
+				}
+				continue
+			}
+			var group [][]byte
+			for _, e := range encs {
+				if e.ob == oi && e.tag == ti {
+					group = append(group, e.raw)
+				}
+			}
+			if len(group) == 0 {
+				continue
+			}
+			evaluated = true
+			if ti == 0 {
+				classes = append(classes, ob.name+":roundtrip", ob.name+":roundtrip:"+lenClassOf(L))
+			}
+			// freshness
+			if ob.randomised {
+				pairwise := ob.name != "xor" || L >= 16
+				stale := false
+				switch {
+				case ob.name == "xor" && L == 0:
+					// nothing to randomise
+				case pairwise:
+					for i := 0; i < len(group) && !stale; i++ {
+						for j := i + 1; j < len(group); j++ {
+							if bytes.Equal(group[i], group[j]) {
+								stale = true
+								break
+							}
+						}
+					}
+					classes = append(classes, ob.name+":fresh-pairwise")
+				default:
+					stale = len(group) > 1
+					for i := 1; i < len(group); i++ {
+						if !bytes.Equal(group[0], group[i]) {
+							stale = false
+						}
+					}
+					classes = append(classes, ob.name+":fresh-short")
+				}
+				if stale {
+					fail(ob.name + ":STALE")
+					if rec.Violation(t, "obf:"+ob.name+":not-fresh", c, "%s: %d encodings of the same %d-byte tag under the same station key contain identical ciphertexts (%d bytes each)", ob.name, len(group), L, len(group[0])) {
+						return
+					}
+				}
+			}
+			// an unrelated key must not reveal the tag (chance on correct code: GCM 2^-128, CTR 2^-8L)
+			if ti == 0 && ob.keyed && (ob.name == "gcm" || L >= 16) {
+				var pt []byte
+				var rerr error
+				if pan, what := c15h.Catch(func() { pt, rerr = ob.o.TryReveal(append([]byte{}, group[0]...), other) }); pan {
+					fail(ob.name + ":PANIC")
+					rec.Violation(t, "obf:"+ob.name+":decode-panic", c, "%s TryReveal panicked with an unrelated key: %s", ob.name, what)
 					return
+				}
+				classes = append(classes, ob.name+":wrong-key-checked")
+				if rerr == nil && bytes.Equal(pt, tag) {
+					fail(ob.name + ":WRONGKEY")
+					if rec.Violation(t, "obf:"+ob.name+":wrong-key-reveals", c, "%s: an unrelated private key reveals the %d-byte tag", ob.name, L) {
+						return
+					}
 				}
 			}
 		}
@@ -244,6 +350,15 @@ func c15ObfGen(rt *rapid.T) c15ObfCase {
 	} else {
 		c.TagSeed = c15h.Seeds().Draw(rt, "tagseed")
 	}
+	// further tags in the same case: same length as the primary one (a recycled buffer then fits
+	// exactly) or another length
+	for i, n := 0, rapid.IntRange(0, 2).Draw(rt, "extratags"); i < n; i++ {
+		x := c15TagSpec{Len: c.TagLen, Seed: rapid.Uint64Range(2, 1<<62).Draw(rt, "extraseed")}
+		if rapid.Bool().Draw(rt, "otherlen") {
+			x.Len = c15h.Lens(300, 0, 16, 32, 64).Draw(rt, "extralen")
+		}
+		c.Extra = append(c.Extra, x)
+	}
 	return c
 }
 
@@ -253,11 +368,11 @@ func c15ObfRequired() []string {
 		out = append(out, o.name+":roundtrip:len1-15", o.name+":roundtrip:len16-64", o.name+":roundtrip:len>64")
 	}
 	return append(out, "gcm:roundtrip:len0", "ctr:roundtrip:len0", "nil:roundtrip:len0",
-		"gcm:fresh-pairwise", "ctr:fresh-pairwise", "xor:fresh-pairwise", "xor:fresh-short", "gcm:wrong-key-checked", "ctr:wrong-key-checked")
+		"gcm:fresh-pairwise", "ctr:fresh-pairwise", "xor:fresh-pairwise", "xor:fresh-short", "gcm:wrong-key-checked", "ctr:wrong-key-checked", "several-tags", "late-recheck")
 }
 
 func TestVerif_C15_obfuscate(t *testing.T) {
-	rec := vh.NewRec("C15", "obfuscate", fmt.Sprintf("rapid: station private key (random 32 bytes; all-zero, all-ones and clamp-only patterns now and then; public key = X25519(priv, base)) x tag length (biased to 0, 1, 12, 16, 32, 48, 64, 128, 256, 1024, 4096, 8192 +-2, uniform tail) x tag bytes (explicit, 0x00.., 0xff.., random stream); every case runs all four obfuscators, %d encodings each (XOR with tags < 16 bytes: 1+ceil(128/8L)). Oracle per obfuscator: Obfuscate errs, or every encoding reveals to the tag under the matching key; GCM/CTR/XOR(>=16 bytes) encodings pairwise distinct, XOR(<16 bytes) not all identical; GCM (and CTR for tags >= 16 bytes) do not reveal the tag under an unrelated key. Non-trivial = at least one obfuscator accepted and was round-tripped; distinct by (key, tag)", c15ObfReps))
+	rec := vh.NewRec("C15", "obfuscate", fmt.Sprintf("rapid: station private key (random 32 bytes; all-zero, all-ones and clamp-only patterns now and then; public key = X25519(priv, base)) x tag length (biased to 0, 1, 12, 16, 32, 48, 64, 128, 256, 1024, 4096, 8192 +-2, uniform tail) x tag bytes (explicit, 0x00.., 0xff.., random stream); plus 0-2 further tags of the same or another length; every case runs all four obfuscators, %d encodings each of the primary tag and 2 of every further tag (XOR with tags < 16 bytes: 1+ceil(128/8L)), all calls interleaved over repetitions, tags and obfuscators, and every returned slice is kept alive untouched. Oracle per obfuscator: Obfuscate errs, or every encoding reveals to its tag under the matching key right after the call AND again after all later Obfuscate calls of the case, and the returned slice is byte-identical to the copy taken right after its call (no aliasing of later encodings); GCM/CTR/XOR(>=16 bytes) encodings pairwise distinct, XOR(<16 bytes) not all identical; GCM (and CTR for tags >= 16 bytes) do not reveal the tag under an unrelated key. Non-trivial = at least one obfuscator accepted and was round-tripped; distinct by (key, tag)", c15ObfReps))
 	defer rec.Flush()
 	rec.Require(c15ObfRequired()...)
 	if p := vh.ReplayFile(); p != "" {
